@@ -77,3 +77,19 @@ Print Assumptions C10_chunking.
 Print Assumptions C10_chunking_pending.
 Print Assumptions C10_eof_inside_frame.
 Print Assumptions C10_chunking_wakeups.
+
+(* ---- lifted to IncomingStream (package H): the frames of ms cut anywhere yield exactly the processed messages *)
+From BS Require Import Bytes Varint Varint_proofs Cid Prefix Hasher Proto Incoming Qp ProtoCodec RefProto Frame Framed Codec Frame_proofs Framed_proofs ProtoCodec_proofs RefProto_proofs Codec_proofs Prefix_proofs Incoming_proofs Streams Streams_proofs Streams_props.
+From Coq Require Import ZArith ZifyBool ZifyN ZifyNat Lia.
+Open Scope N_scope.
+
+Theorem C10_stream_out_chunking :
+  forall (Sz : N) (Hh : hash_fn) (chk : bool) (ms : list message) (evs : list read_ev),
+  Forall wf_message ms ->
+  Forall (size_ok write_message) ms ->
+  live evs ->
+  ev_data evs = concat (map codec_encode ms) ->
+  stream_out Sz Hh chk (evs ++ [Eof]) = deliver (process_message Sz Hh) ms FEnd.
+Proof. exact (@Streams_proofs.C10_stream_out_chunking). Qed.
+
+Print Assumptions C10_stream_out_chunking.
